@@ -270,3 +270,30 @@ def order_lattice(ia, ib, k):
         if bool(f(qa, qb)) != want or bool(f(qa, b)) != want or bool(f(a, qb)) != want:
             return False
     return True
+
+
+def op_sequence(k, r):
+    """a SEQUENCE of operations on the same two operands stored in different unit systems, in one process: every result equals
+    arithmetic on the SI values whatever was computed before (x - y, then y / x, then x > y ...)"""
+    import operator as O
+    pairs = [("B", "A"), ("A", "G"), ("G", "J"), ("C", "B"), ("K", "H"), ("E", "D")]
+    usx, usy = pairs[k % len(pairs)]
+    d = _EQ_DIMS[(k // len(pairs)) % (len(_EQ_DIMS) - 1)]          # not the dimensionless one
+    a, b = 3.0, 90.0
+    x, y = uv(a, usx, d), uv(b, usy, d)
+    sx, sy = si(x), si(y)
+    d2 = tuple(2 * e for e in d)
+    steps = [("sub", lambda: x - y, sx - sy, d), ("div_yx", lambda: y / x, sy / sx, (0, 0, 0)), ("gt", lambda: x > y, sx > sy, None), ("add", lambda: x + y, sx + sy, d),
+             ("div_xy", lambda: x / y, sx / sy, (0, 0, 0)), ("lt", lambda: y < x, sy < sx, None), ("mul", lambda: x * y, sx * sy, d2), ("mod", lambda: x % y, None, d)]
+    steps = steps[r % len(steps):] + steps[:r % len(steps)]
+    for name, f, want, dim in steps + steps:
+        got = f()
+        if dim is None:
+            if bool(got) != want:
+                return False
+            continue
+        if dims(got) != tuple(dim):
+            return False
+        if want is not None and not close(si(got), want, abs(want) + 1e-300):
+            return False
+    return True
